@@ -318,7 +318,7 @@ pub fn check(cfg: &RunCfg, _findings: &Findings) -> Report {
     cfg,
     "C18-batches",
     16,
-    if quick { 250 } else { 6_000 },
+    if quick { 800 } else { 10_000 },
     32,
     400,
     |src: &mut Src| {
